@@ -300,12 +300,112 @@ Lemma spec_flat_map entries :
   spec entries = flat_map (fun e => match type_of_name (snd e) with Some t => [(fst e, t)] | None => [] end) entries.
 Proof. induction entries as [|[n ty] r IH]; cbn [spec flat_map fst snd]; [reflexivity|]. destruct (type_of_name ty); rewrite IH; reflexivity. Qed.
 
-(* ---------- Reload replaces both tables; the request table and the serial counter are untouched ---------- *)
+(* ---------- forgetting refilled slots (D30, repaired) ---------- *)
+(* `forget` changes the three masks sent / more / okm and nothing else *)
+Lemma forget_fields idx r :
+  cid (forget idx r) = cid r /\ ser (forget idx r) = ser r /\ addr (forget idx r) = addr r /\ port (forget idx r) = port r /\
+  raddr (forget idx r) = raddr r /\
+  f_host (forget idx r) = f_host r /\ f_ident (forget idx r) = f_ident r /\ f_nick (forget idx r) = f_nick r /\
+  f_user (forget idx r) = f_user r /\ f_pass (forget idx r) = f_pass r /\ f_empty (forget idx r) = f_empty r /\
+  f_tout (forget idx r) = f_tout r /\ f_sdone (forget idx r) = f_sdone r /\
+  holds (forget idx r) = holds r /\ soft (forget idx r) = soft r /\
+  host (forget idx r) = host r /\ cliu (forget idx r) = cliu r /\ authu (forget idx r) = authu r /\ nick (forget idx r) = nick r /\
+  real (forget idx r) = real r /\ acct (forget idx r) = acct r /\
+  hh (forget idx r) = hh r /\ ho (forget idx r) = ho r /\ refm (forget idx r) = refm r /\ pw (forget idx r) = pw r /\
+  timer (forget idx r) = timer r.
+Proof. repeat split. Qed.
+
+Lemma forget_nil r : forget [] r = r.
+Proof. destruct r; reflexivity. Qed.
+
+Lemma forget_cid idx r : cid (forget idx r) = cid r.
+Proof. reflexivity. Qed.
+
+Lemma map_cid_forget idx rs : map cid (map (forget idx) rs) = map cid rs.
+Proof. rewrite map_map. apply map_ext. intros r. reflexivity. Qed.
+
+Lemma lookup_map_forget idx id rs : lookup id (map (forget idx) rs) = option_map (forget idx) (lookup id rs).
+Proof.
+  induction rs as [|r rs IH]; cbn [map lookup option_map]; [reflexivity|].
+  rewrite forget_cid. destruct (cid r =? id)%Z; [reflexivity|exact IH].
+Qed.
+
+Lemma lookup_map_forget_none idx id rs : lookup id rs = None -> lookup id (map (forget idx) rs) = None.
+Proof. intros H. rewrite lookup_map_forget, H. reflexivity. Qed.
+
+(* the bits of a mask after clearing a list of indices *)
+Lemma clear_all_bit idx : forall m i, N.testbit (fold_left N.clearbit idx m) i = N.testbit m i && negb (existsb (N.eqb i) idx).
+Proof.
+  induction idx as [|j idx IH]; intros m i; cbn [fold_left existsb]; [rewrite andb_true_r; reflexivity|].
+  rewrite IH. destruct (N.eqb_spec i j) as [->|Hn].
+  - rewrite N.clearbit_eq. cbn [orb negb]. rewrite andb_false_r. reflexivity.
+  - rewrite N.clearbit_neq by (intro E; apply Hn; symmetry; exact E). reflexivity.
+Qed.
+
+Lemma existsb_eqb_in i idx : existsb (N.eqb i) idx = true <-> In i idx.
+Proof.
+  rewrite existsb_exists. split.
+  - intros (x & Hx & E). apply N.eqb_eq in E. subst. exact Hx.
+  - intros H. exists i. split; [exact H|apply N.eqb_refl].
+Qed.
+
+Lemma clear_all_in idx m i : In i idx -> N.testbit (fold_left N.clearbit idx m) i = false.
+Proof. intros H. rewrite clear_all_bit. apply existsb_eqb_in in H. rewrite H. apply andb_false_r. Qed.
+
+Lemma clear_all_notin idx m i : ~ In i idx -> N.testbit (fold_left N.clearbit idx m) i = N.testbit m i.
+Proof.
+  intros H. rewrite clear_all_bit. destruct (existsb (N.eqb i) idx) eqn:E; [apply existsb_eqb_in in E; contradiction|]. apply andb_true_r.
+Qed.
+
+(* the indices of `refilled old new i0`: positions (counted from i0) where old is empty and new is occupied *)
+Lemma refilled_in : forall old new i0 i,
+  In i (refilled old new i0) <->
+  exists k, i = (i0 + N.of_nat k)%N /\ nth_error old k = Some None /\ exists s, nth_error new k = Some (Some s).
+Proof.
+  induction old as [|o old IH]; intros new i0 i.
+  - cbn [refilled]. split; [intros []|]. intros (k & _ & H & _). destruct k; discriminate.
+  - destruct new as [|n new].
+    + assert (refilled (o :: old) [] i0 = []) as -> by (destruct o; reflexivity).
+      split; [intros []|]. intros (k & _ & _ & s & H). destruct k; discriminate.
+    + assert (forall i, In i (refilled old new (i0 + 1)) <->
+              exists k, i = (i0 + N.of_nat (S k))%N /\ nth_error (o :: old) (S k) = Some None /\ exists s, nth_error (n :: new) (S k) = Some (Some s)) as T.
+      { intros j. rewrite IH. split; intros (k & E & H); exists k; (split; [lia|exact H]). }
+      assert (In i (refilled (o :: old) (n :: new) i0) <->
+              (o = None /\ (exists s, n = Some s) /\ i = i0) \/ In i (refilled old new (i0 + 1))) as U.
+      { destruct o as [so|], n as [sn|]; cbn [refilled In]; split; intros H.
+        - right; exact H.
+        - destruct H as [(E & _)|H]; [discriminate|exact H].
+        - right; exact H.
+        - destruct H as [(E & _)|H]; [discriminate|exact H].
+        - destruct H as [H|H]; [left; repeat split; [exists sn; reflexivity|symmetry; exact H]|right; exact H].
+        - destruct H as [(_ & _ & E)|H]; [left; symmetry; exact E|right; exact H].
+        - right; exact H.
+        - destruct H as [(_ & (s & E) & _)|H]; [discriminate|exact H]. }
+      rewrite U, T. split.
+      * intros [(Eo & (s & En) & Ei)|(k & E & H)].
+        -- exists O. subst. cbn [nth_error]. split; [lia|]. split; [reflexivity|]. exists s. reflexivity.
+        -- exists (S k). split; [exact E|exact H].
+      * intros ([|k] & E & Ho & s & Hn).
+        -- left. cbn [nth_error] in Ho, Hn. inversion Ho. inversion Hn. subst. split; [reflexivity|]. split; [exists s; reflexivity|lia].
+        -- right. exists k. split; [exact E|]. split; [exact Ho|]. exists s. exact Hn.
+Qed.
+
+(* a refilled slot was EMPTY before: a request awaiting an answer from a slot (a set bit of refm points at an occupied
+   slot with a positive reference count) never loses anything about that slot *)
+Lemma refilled_was_empty old new i : In i (refilled old new 0) -> nth_error old (N.to_nat i) = Some None.
+Proof.
+  intros H. apply refilled_in in H as (k & E & Ho & _). subst i. cbn [N.add]. rewrite Nat2N.id. exact Ho.
+Qed.
+
+(* ---------- Reload replaces both tables; the serial counter is untouched, and the pending requests forget the slots
+   that the reload gave to a new occupant (nothing else about them changes) ---------- *)
 Theorem reload_tables c s svs rs t :
   let s' := fst (step_ev c s (Reload svs rs t)) in
-  rules (tb s') = rs /\ slots (tb s') = services_changed (slots (tb s)) svs /\ reqs s' = reqs s /\ next s' = next s /\ tmo s' = t /\
+  rules (tb s') = rs /\ slots (tb s') = services_changed (slots (tb s)) svs /\
+  reqs s' = map (forget (refilled (slots (tb s)) (services_changed (slots (tb s)) svs) 0)) (reqs s) /\
+  next s' = next s /\ tmo s' = t /\
   snd (step_ev c s (Reload svs rs t)) = [].
-Proof. cbn. repeat split. Qed.
+Proof. cbn [step_ev fst snd rules slots tb reqs next tmo]. repeat split. Qed.
 
 Corollary reload_like_fresh c s svs rs t : (List.length (slots (tb s)) + List.length svs <= max_slots)%nat -> NoDup (map fst svs) ->
   let s' := fst (step_ev c s (Reload svs rs t)) in let s0 := init c svs rs t in
